@@ -22,14 +22,20 @@ import json,ast,sys
 b=json.load(open('/root/.vp/BASELINE.json'))
 sp=b['stable_pass']
 if isinstance(sp,str): sp=ast.literal_eval(sp)
-want=set(sp); got=set()
+want=set(sp); got=set(); failed=set()
 for l in open('/tmp/mutv-%s.json'%sys.argv[1]):
     try: e=json.loads(l)
     except Exception: continue
-    if e.get('Action')=='pass' and e.get('Test'): got.add(e['Package']+'::'+e['Test'])
-missing=sorted(want-got)
-print('suite with the change: missing=%d'%len(missing), missing[:5])
-sys.exit(1 if missing else 0)
+    if e.get('Test'):
+        if e.get('Action')=='pass': got.add(e['Package']+'::'+e['Test'])
+        if e.get('Action')=='fail': failed.add(e['Package']+'::'+e['Test'])
+import re
+# sub-tests of TestEnv_Lookup are named after run-time variable numbers (_2199): a change that creates more or fewer variables
+# renames them without failing anything
+missing=sorted(t for t in want-got if not re.search(r'TestEnv_Lookup/_\d+$', t))
+failed=sorted(t for t in failed if 'TestOpen' not in t)
+print('suite with the change: missing=%d failed=%d'%(len(missing),len(failed)), missing[:5], failed[:5])
+sys.exit(1 if missing or failed else 0)
 PY
 suite=$?
 demo=$(ls $src/*_test.go | head -1)
